@@ -225,10 +225,14 @@ class Interp04(chain.Interp):
             # assertion or at the 0/0 of its convergence test. Outside the property's domain (insufficient guess): not counted.
             try:
                 ok, c = True, x.variational_compress(mpo)
-            except (AssertionError, FloatingPointError) as e:
+            except (AssertionError, FloatingPointError, ValueError) as e:
                 s_, in_lib = lib_exception_sig(e)
                 if not in_lib:
                     raise
+                if isinstance(e, ValueError) and "Invalid quantum number" not in str(e):
+                    self.r.fail(f"vcompress.{s_}", f"{e!r} trace={self.trace[-6:]}")
+                    return
+                # ValueError('Invalid quantum number'): the truncated labels of the guess admit no block of the target sector
                 self.r.classes.append("variational_compress.small_guess_vanished")
                 return
             except Exception as e:  # noqa
